@@ -358,16 +358,45 @@ def r4_validation(ctx, prog):
                 r.viol("R4:visit_seq#%s-not-dominating" % variant, "the test that yields %s and Ok(Ranges) are not the two outcomes of one decision on every path" % variant, file=b.file)
         if fine:
             r.inst("visit_seq#" + variant, "its test dominates Ok(Ranges); the error branch cannot reach Ok")
-    # the three values tested come from check_deserialization in order
+    # the decision itself, evaluated (rules/absint.py) over (nested?, invalid fallback, number of fallbacks, type needs a fallback)
     fn = ctx.ast.fn(PV, "visit_seq", impl_self="ParsedValueSeed")
     if fn is not None:
-        t = flat(show(fn.body))
-        seq = ["ifinvalid_fallback{Err(", "elseif(fallback_count>1){Err(", "elseif((fallback_count==0)&&should_have_fallback){Err("]
-        pos = [t.find(x) for x in seq]
-        if -1 in pos or pos != sorted(pos) or not has(t, "let(invalid_fallback,fallback_count,should_have_fallback)=ranges.check_deserialization()"):
-            r.viol("R4:visit_seq#conditions", "the fallback conditions changed: expected invalid_fallback / fallback_count > 1 / fallback_count == 0 && should_have_fallback", file=fn.file, line=fn.line)
+        from rules import absint
+        from rules.absint import AEval, A, B, C, CF, I, T
+        bad = []
+        n = 0
+        for nested in (False, True):
+            for inv in (False, True):
+                for cnt in (0, 1, 2, 3):
+                    for shf in (False, True):
+                        seen = {}
+
+                        def from_seq(a, seen=seen):
+                            seen["seed"] = a[1]
+                            return C("Ok", A("ranges"))
+                        ev = AEval(funcs={}, builtins={"check_deserialization": lambda rv, a, inv=inv, cnt=cnt, shf=shf: T(B(inv), I(cnt), B(shf)), "get_type": lambda rv, a: A("range-type")})
+                        ev.path_builtins = {"Ranges::from_serde_seq": from_seq}
+                        import re as _re
+                        ev.opaque_paths = _re.compile(r"Error::custom$")
+                        seed = CF("ParsedValueSeed", top_locale_name=A("locale"), in_range=B(nested), key_path=A("key_path"), key=A("key"), foreign_keys_paths=A("fkp"))
+                        got = ev.run_fn(fn, [seed, A("seq")])
+                        n += 1
+                        if isinstance(got, str):
+                            bad.append("cannot be evaluated: %s" % got)
+                            break
+                        txt = absint.fmt(got)
+                        applicable = (["NestedRanges"] if nested else []) or ([x for x, c in (("InvalidFallback", inv), ("MultipleFallbacks", cnt > 1), ("MissingFallback", cnt == 0 and shf)) if c])
+                        if applicable:
+                            if not (got[0] == "ctor" and got[1] == "Err" and any(x in txt for x in applicable)):
+                                bad.append("nested=%s invalid_fallback=%s fallbacks=%d needs_fallback=%s gives %s, expected an error among %s" % (nested, inv, cnt, shf, txt[:80], applicable))
+                        elif got != C("Ok", C("Ranges", A("ranges"))):
+                            bad.append("nested=%s invalid_fallback=%s fallbacks=%d needs_fallback=%s gives %s, expected Ok(Ranges)" % (nested, inv, cnt, shf, txt[:80]))
+                        if not nested and "seed" in seen and absint.fields_of(seen["seed"]).get("in_range") != B(True):
+                            bad.append("the branches are parsed with in_range = %s: a range nested in a branch would not be detected" % absint.fmt(absint.fields_of(seen["seed"]).get("in_range", A("?"))))
+        if bad:
+            r.viol("R4:visit_seq#conditions", "the acceptance decision of a range changed: %s" % "; ".join(sorted(set(bad))[:3]), file=fn.file, line=fn.line)
         else:
-            r.inst("visit_seq#conditions", "invalid_fallback; fallback_count > 1; fallback_count == 0 && should_have_fallback")
+            r.inst("visit_seq#conditions", "%d cases (nested, invalid fallback, 0-3 fallbacks, type needs a fallback): rejected with the matching error exactly when one of the conditions holds, else Ok(Ranges); branches parsed with in_range set" % n)
     b2 = prog.body("ranges::Ranges::from_serde_seq")
     if b2 is None:
         r.missing("Ranges::from_serde_seq")
